@@ -211,10 +211,28 @@ def _mod(x: Lin, m: Lin, case) -> Lin:
 CASES = [(0, True), (0, False), (1, True), (1, False)]
 
 
+def work_name(bmap: FuncInfo) -> str:
+    """Name of the working array of the boundary map: the array whose
+    coordinates are stored into (the input parameter rebound to a copy, or a
+    differently named copy of it)."""
+    first = bmap.params[0]
+    names = []
+    for n in walk_no_nested(bmap.node):
+        if isinstance(n, (ast.Assign, ast.AugAssign)):
+            t = n.targets[0] if isinstance(n, ast.Assign) else n.target
+            if isinstance(t, ast.Subscript) and isinstance(t.value, ast.Name):
+                names.append(t.value.id)
+    if not names:
+        raise AnalysisError("C16: the boundary map stores into no array")
+    if len(set(names)) != 1:
+        raise AnalysisError(f"C16: the boundary map stores into several arrays {sorted(set(names))}")
+    return names[0]
+
+
 def rule_d(ctx: Context, R: Reporter, bmap: FuncInfo):
     flow = flow_of(bmap.node)
     cfg = flow.cfg
-    uparam = bmap.params[0]
+    uparam = work_name(bmap)
     loops = [n for n in cfg.stmt_nodes() if n.kind == "for" and isinstance(n.stmt.iter, ast.Name) and n.stmt.iter.id in bmap.params[1:]]
     R.floor("C16.d", "fold loops (periodic / reflective)", len(loops), 2)
     for lp in loops:
@@ -301,7 +319,7 @@ def rule_a(ctx: Context, R: Reporter, bmap: FuncInfo):
         n += 1
         at = flow.node_containing(c)
         rx = ExprResolver(bmap.node).resolve(recv, at)
-        depends = uparam in {x.id for x in ast.walk(rx) if isinstance(x, ast.Name)}
+        depends = bool({uparam, work_name(bmap)} & {x.id for x in ast.walk(rx) if isinstance(x, ast.Name)})
         bounded = any((isinstance(x, ast.BinOp) and isinstance(x.op, ast.Mod)) or
                       (isinstance(x, ast.Call) and (ctx.res.external_name(bmap, x) or "") in ("numpy.mod", "numpy.remainder", "numpy.clip", "numpy.minimum", "numpy.maximum", "numpy.fmod"))
                       for x in ast.walk(rx))
@@ -318,14 +336,15 @@ def rule_a(ctx: Context, R: Reporter, bmap: FuncInfo):
 def rule_b(ctx: Context, R: Reporter, bmap: FuncInfo):
     flow = flow_of(bmap.node)
     cfg = flow.cfg
-    uparam = bmap.params[0]
-    # the parameter is rebound to a copy before any store
+    inparam = bmap.params[0]
+    uparam = work_name(bmap)
+    # the working array is bound to a copy of the input before any store
     copies = [n for n in cfg.stmt_nodes() if n.kind == "stmt" and isinstance(n.stmt, ast.Assign) and isinstance(n.stmt.targets[0], ast.Name) and n.stmt.targets[0].id == uparam]
     copy_ok = False
     for cnode in copies:
         v = cnode.stmt.value
-        if isinstance(v, ast.Call) and ((isinstance(v.func, ast.Attribute) and v.func.attr == "copy" and isinstance(v.func.value, ast.Name) and v.func.value.id == uparam) or
-                                        ((ctx.res.external_name(bmap, v) or "") in ("numpy.array", "numpy.copy") and v.args and isinstance(v.args[0], ast.Name) and v.args[0].id == uparam and
+        if isinstance(v, ast.Call) and ((isinstance(v.func, ast.Attribute) and v.func.attr == "copy" and isinstance(v.func.value, ast.Name) and v.func.value.id == inparam) or
+                                        ((ctx.res.external_name(bmap, v) or "") in ("numpy.array", "numpy.copy") and v.args and isinstance(v.args[0], ast.Name) and v.args[0].id == inparam and
                                          not any(k.arg == "copy" and const_value(k.value) is False for k in v.keywords))):
             copy_ok = True
     stores = [n for n in cfg.stmt_nodes() if n.kind == "stmt" and isinstance(n.stmt, (ast.Assign, ast.AugAssign)) and
@@ -397,11 +416,21 @@ def rule_c(ctx: Context, R: Reporter, pred: FuncInfo):
     for rn in cfg.stmt_nodes():
         if rn.kind != "stmt" or not isinstance(rn.stmt, ast.Return) or rn.stmt.value is None:
             continue
-        v = rn.stmt.value
+        v = rs.resolve(rn.stmt.value, rn)
         if isinstance(v, ast.Constant) or (isinstance(v, ast.Call) and (ctx.res.external_name(pred, v) or "") in ("numpy.ones",)):
             # trivially-true returns are only legal when the strict set is empty
-            conds = [c for c in cfg.conditions_on_all_paths(rn.id)]
-            ok = any("len(" in norm_text(t) and "==0" in norm_text(t) and pol for (t, pol) in conds)
+            from ..util import conds_holding_at as _cha
+
+            ok = False
+            for (t, pol) in _cha(cfg, rn):
+                tt = norm_text(t)
+                if pol and "len(" in tt and tt.endswith("==0"):
+                    ok = True
+                if (not pol) and (isinstance(t, ast.Name) or tt.startswith("len(")) and "strict" in tt or ((not pol) and isinstance(t, ast.Name)):
+                    # `if not strict_indices:` -> fact (strict_indices, False)
+                    ds = flow.reaching(rn, t.id) if isinstance(t, ast.Name) else []
+                    if isinstance(t, ast.Name) and ds and all(d.value is not None and "range" in norm_text(rs.resolve(d.value, d.node)) for d in ds):
+                        ok = True
             R.check("C16.c", "an unconditional `valid` result only when no strict coordinate exists", ok and (const_value(v) is True or not isinstance(v, ast.Constant)), pred, rn.stmt,
                     msg=f"{pred.short}: `{unparse(rn.stmt)}` accepts every point although strict coordinates may exist", key=f"trivial-return:{norm_text(v)[:30]}")
             continue
